@@ -162,4 +162,62 @@ theorem C06_sweep_guard (db : Db) (now : Time) (mx : Nat) (victims : List Id) (f
           | none => rfl
           | some x => have := hp.1.1.1; rw [hc] at this; cases this
 
+theorem mem_insertById (d x : Delivery) (l : List Delivery) : x ∈ insertById d l ↔ x = d ∨ x ∈ l := by
+  induction l with
+  | nil => simp [insertById]
+  | cons e r ih =>
+    unfold insertById
+    split
+    · simp
+    · simp only [List.mem_cons, ih]
+      constructor
+      · rintro (h | h | h)
+        · exact Or.inr (Or.inl h)
+        · exact Or.inl h
+        · exact Or.inr (Or.inr h)
+      · rintro (h | h | h)
+        · exact Or.inr (Or.inl h)
+        · exact Or.inl h
+        · exact Or.inr (Or.inr h)
+
+theorem mem_sortById (l : List Delivery) (x : Delivery) : x ∈ sortById l ↔ x ∈ l := by
+  unfold sortById
+  induction l with
+  | nil => simp
+  | cons a r ih => simp only [List.foldr_cons, mem_insertById, ih, List.mem_cons]
+
+/-- every row the nack loop visits is a row of the table named by the request that is neither
+    acknowledged nor past its retention -/
+theorem nackLoop_victims_open (db : Db) (now : Time) (ids : List Id) :
+    ∀ d ∈ sortById (db.dels.filter fun d => ids.contains d.id && d.isOpen now),
+      d ∈ db.dels ∧ d.id ∈ ids ∧ d.completedAt = none ∧ now < d.expiresAt := by
+  intro d hd
+  have := (mem_sortById _ d).mp hd
+  obtain ⟨h1, h2⟩ := List.mem_filter.mp this
+  simp only [Bool.and_eq_true, List.contains_iff_mem] at h2
+  unfold Delivery.isOpen at h2
+  simp only [Bool.and_eq_true, decide_eq_true_eq] at h2
+  refine ⟨h1, h2.1, ?_, h2.2.2⟩
+  cases hc : d.completedAt with
+  | none => rfl
+  | some x => have := h2.2.1; rw [hc] at this; cases this
+
+/-- **C06 (never after done, every trigger)**: the three triggers hand only deliveries that are neither
+    acknowledged nor past their retention to the dead-letter routine — the nack path visits exactly the
+    rows named by the request that are open (`nackLoop_victims_open`; their number is the reported
+    count), the pull path its candidates (all eligible: `C01_offered`, `C02_pull_sound`), the sweep
+    `C06_sweep_guard` rows; since a completed row stays completed along every continuation without
+    seek (`C03_no_resurrect`), a delivery is forwarded at most once. -/
+theorem C06_nack_guard (db : Db) (now : Time) (ids : List Id) (delays : List (Id × Int)) (fwds : List (Id × List Fwd))
+    (o : TxOut (Nat × Nat)) (h : nack db now ids delays fwds = .ok o) :
+    o.val.1 = (sortById (db.dels.filter fun d => ids.contains d.id && d.isOpen now)).length ∧
+    ∀ d ∈ sortById (db.dels.filter fun d => ids.contains d.id && d.isOpen now),
+      d ∈ db.dels ∧ d.id ∈ ids ∧ d.completedAt = none ∧ now < d.expiresAt := by
+  refine ⟨?_, nackLoop_victims_open db now ids⟩
+  unfold nack at h
+  simp only at h
+  split at h
+  · cases h
+  · injection h with h; subst h; rfl
+
 end Mmmbbb
